@@ -122,7 +122,19 @@ func c02MapModel(maxPre, steps int) {
 		key := c02Keys[rt.Choice(tag+".key", len(c02Keys))]
 		e := model[key]
 		vis := c02Visible(e, now)
-		switch rt.Choice(tag, 9) {
+		switch rt.Choice(tag, 10) {
+		case 9: // batch put of a live record, or of the deleted version of a record
+			r := &c02Rec{N: rt.I64(tag + ".N")}
+			r.SetKey("t:" + key)
+			r.UpdateMeta()
+			deleted := rt.Bool(tag + ".deleted")
+			if deleted {
+				r.Meta().Deleted = now - 1
+			}
+			put := db.PutMany("t")
+			rt.Assert(put(r) == nil, "model/batch-put-accepted")
+			rt.Assert(put(nil) == nil, "model/batch-finished-ok")
+			model[key] = c02Entry{n: r.N, present: true, deleted: deleted}
 		case 8: // relative expiry (60 s, or 0 = switch the self-updating expiry off): the record stays visible
 			d := int64(60 * rt.Choice(tag+".ttl", 2))
 			err := db.SetRelativateExpiry("t:"+key, d)
